@@ -356,6 +356,8 @@ def r_merge(repo, tier):
                 for x in ast.walk(comp.elt):
                     if isinstance(x, ast.Attribute) and norm(x.value) == locname and x.attr in ("seg", "disp"):
                         used.add(x.attr)
+                    if isinstance(x, ast.Name) and x.id in ("seg", "disp"):
+                        used.add(x.id)
                     if isinstance(x, ast.Name) and x.id in alias:
                         used.add(alias[x.id])
                 out.inst("%s::expand@%d" % (g.key, comp.lineno), {"function": g.dqual, "expansion": norm(comp)[:90], "uses": sorted(used)})
@@ -367,9 +369,11 @@ def r_merge(repo, tier):
     # vec.simplify
     v = repo.func(EXPR, "vec.simplify")
     vloops = [l for l in ast.walk(v.node) if isinstance(l, ast.For)]
+    # accumulators: the lists the loops fill -- locals initialised to [] in the function, and self.l
+    list_locals = {a.targets[0].id for a in ast.walk(v.node) if isinstance(a, ast.Assign) and len(a.targets) == 1 and isinstance(a.targets[0], ast.Name) and isinstance(a.value, ast.List) and not a.value.elts}
     for k, loop in enumerate(vloops[:2]):
         xv = {n.id for n in ast.walk(loop.target) if isinstance(n, ast.Name)}
-        accs = {"l"} if k == 0 else {"self.l"}
+        accs = set(list_locals) | {"self.l"}
         res = xfer.check_loop(v.node, loop, xv, accs)
         out.inst("%s::loop%d" % (v.key, k + 1), {"loop": norm(loop).split(":")[0], "sinks": res.sinks, "paths_without_store": len(res.bad_paths), "dedup_skips": len(res.exempt)})
         if not res.sinks:
@@ -421,8 +425,8 @@ def r_addvertex(repo, tier):
             continue
         for c in ast.walk(nd.ast):
             if isinstance(c, ast.Call) and isinstance(c.func, ast.Attribute):
-                if c.func.attr == "add_vertex" and norm(c.func.value).startswith("super("):
-                    reg.add(nd.id)
+                if c.func.attr == "add_vertex" and (norm(c.func.value).startswith("super(") or norm(c.func.value) == "self"):
+                    reg.add(nd.id)  # the base class registers; a recursive call registers by induction
                 elif c.func.attr.endswith("__cut_add_vertex"):
                     reg.add(nd.id)
                     wr.add(nd.id)
